@@ -209,6 +209,45 @@ def bad_straight_line_between_cycles(early=False):
             _restore(saved)
 
 
+def _export():
+    saved = dict((n, os.environ.get(n)) for n in ('V1', 'V2'))
+    try:
+        os.environ['V1'] = 'new1'
+        note('exporting')
+        os.environ['V2'] = 'new2'
+    except Exception:
+        _restore(saved)
+        raise
+    return saved
+
+
+def ok_acquire_then_try(early=False):
+    # the canonical idiom: the perturbing helper runs just before the try (twice per call)
+    for n in (40, 50):
+        stage(n)
+        if early:
+            fail_early()
+        saved = _export()
+        try:
+            stage(n + 1)
+            stage(3)
+        finally:
+            _restore(saved)
+
+
+def _wrapped_body(early):
+    body(early)
+    return stage(6)
+
+
+def ok_return_call_inside_try_finally(early=False):
+    saved = dict((n, os.environ.get(n)) for n in ('V1', 'V2'))
+    try:
+        return _wrapped_body(early)
+    finally:
+        _restore(saved)
+
+
 def bad_cleanup_before_restore(early=False):
     saved = dict((n, os.environ.get(n)) for n in ('V1', 'V2'))
     try:
@@ -276,6 +315,7 @@ def main(argv=None):
                     reset()
                     m, outcome, before, after = inject.run_monitored(lambda: fn(early is True), ('V1', 'V2'))
                     r, tblocked, twins, still_open = inject.fault_windows(m)
+                    still_open = still_open | inject.mechanism_calls(m)
                     r_single = inject.admissibility(m)[0]
                     assert r >= r_single, (name, r, r_single)
                     win = min((mu['at'] for mu in m.mutations if mu.get('cleanup') is None), default=None)
@@ -296,7 +336,7 @@ def main(argv=None):
                             if when == 'entry':
                                 assert m2.fired is not None, (name, e)
                             elif m2.fired is None:
-                                assert early, (name, e, 'return fault lost although the call returned')
+                                assert early or m2.not_delivered, (name, e, 'return fault lost although the call returned')
                             d = inject.env_diff(b2, a2)
                             if d:
                                 flagged += 1
